@@ -41,56 +41,102 @@ PRE = ("From Coq Require Import List NArith Bool.\nImport ListNotations.\n"
        "From LI Require Import Runtime.Context.\nFrom LI Require Import Runtime.ContextCheck.\n"
        "From LI Require Import Runtime.ContextAcc.\nFrom LI Require Import Runtime.ContextAccCheck.\nOpen Scope N_scope.\n")
 
-NLOC = 5
+NLOC = 8
 SUB_COOKIES = ["sub_a", "sub_b"]
 MAX_CTX, MAX_OPS, MAX_HANDLES, MAX_DEPTH = 4, 40, 9, 2
 MAX_ACC, MAX_WATCH, MAX_FROZEN = 5, 4, 4
 
 # ------------------------------------------------------------------ accessor flavours (mirror of Runtime/ContextAcc.v)
-MACROS = ["MT", "MTu", "MTString", "MTuString", "MTDisplay", "MTuDisplay", "MTd", "MTdString", "MTdDisplay"]
-MACRO_NAMES = ["t!", "tu!", "t_string!", "tu_string!", "t_display!", "tu_display!", "td!", "td_string!", "td_display!"]
+MACROS = ["MT", "MTu", "MTString", "MTuString", "MTDisplay", "MTuDisplay", "MTd", "MTdString", "MTdDisplay",
+          "MTPlural", "MTuPlural", "MTPluralOrd", "MTuPluralOrd",
+          "MTFormat", "MTuFormat", "MTFormatString", "MTuFormatString", "MTFormatDisplay", "MTuFormatDisplay"]
+MACRO_NAMES = ["t!", "tu!", "t_string!", "tu_string!", "t_display!", "tu_display!", "td!", "td_string!", "td_display!",
+               "t_plural!", "tu_plural!", "t_plural_ordinal!", "tu_plural_ordinal!",
+               "t_format!", "tu_format!", "t_format_string!", "tu_format_string!", "t_format_display!", "tu_format_display!"]
 EXPRS = ["EIdent", "EUseCall", "EScopeInline", "EUseScopedInline", "EField", "EDeref", "EBlock", "EParen", "EMethod", "EFnCall"]
 CTX_EXPR = ["c", "use_i18n()", "scope_i18n!(c, ns)", "use_i18n_scoped!(ns)", "holder.i18n", "*r", "{ c }", "(c)", "holder.get()", "idf(c)"]
 LOC_EXPR = ["l (Locale bound at creation)", "use_i18n().get_locale()", "scope_locale!(c.get_locale(), ns)",
             "use_i18n().get_locale_untracked()", "holder.i18n.get_locale()", "(*r).get_locale()", "{ c.get_locale() }",
             "(c.get_locale())", "c.get_locale()", "idf(c.get_locale_untracked())"]
+# payloads (mirror of harness/h_ctx: COUNTS, NUMS, DATES, LISTS and the one formatter of each family)
+COUNTS = [0, 1, 2, 3, 5, 11, 21, 100]
+FORM_NAMES = ["zero", "one", "two", "few", "many", "other"]
+FMT_VALUES = [["2000.5", "1234567.891", "0.5"], ["2024-03-05", "1999-12-31"], ['["a", "b", "c"]', '["x", "y"]']]
+FMT_FORMATTER = ["number", "date(date_length: long)", "list(list_type: and; list_style: wide)"]
+FMT_PAYLOADS = [fam * 4 + v for fam in range(3) for v in range(len(FMT_VALUES[fam]))]
 
 
-def fl(m, e, i):
-    return m * 32 + e * 2 + i
+def fl(m, e, i, p=0):
+    """a flavour with its payload: macro * 32 + kind of first argument * 2 + interpolation arguments, + 1024 * payload
+    (plural macros: index of the count; format macros: formatter family * 4 + index of the value)"""
+    return m * 32 + e * 2 + i + 1024 * p
 
 
 def fl_parts(f):
+    f %= 1024
     return f // 32, (f % 32) // 2, f % 2
+
+
+def fl_payload(f):
+    return f // 1024
+
+
+def fl_family(f):
+    m = fl_parts(f)[0]
+    return "loc" if m < 9 else "plural" if m < 13 else "format"
 
 
 def fl_frozen(f):
     m, e, _ = fl_parts(f)
-    return m >= 6 and e == 0
+    return 6 <= m <= 8 and e == 0
 
 
 def fl_tracked(f):
     m, e, _ = fl_parts(f)
     if m < 6:
         return m % 2 == 0
-    return e not in (0, 3, 9)
+    if m < 9:
+        return e not in (0, 3, 9)
+    return m % 2 == 1
 
 
 def fl_name(f):
     m, e, i = fl_parts(f)
-    return "%s(%s, key%s)" % (MACRO_NAMES[m], (LOC_EXPR if m >= 6 else CTX_EXPR)[e], ", n = .." if i else "")
+    p = fl_payload(f)
+    if m < 9:
+        return "%s(%s, key%s)" % (MACRO_NAMES[m], (LOC_EXPR if m >= 6 else CTX_EXPR)[e], ", n = .." if i else "")
+    if m < 13:
+        return "%s(%s, count = move || %d, zero => .., one => .., two => .., few => .., many => .., _ => ..)" % (
+            MACRO_NAMES[m], CTX_EXPR[e], COUNTS[p % 8])
+    return "%s(%s, %s, formatter: %s)" % (MACRO_NAMES[m], CTX_EXPR[e], FMT_VALUES[p // 4][p % 4], FMT_FORMATTER[p // 4])
 
 
 def fl_coq(f):
-    return "F%d_" % f
+    return "F%d_" % (f % 1024)
 
 
-ALL_FL = [fl(m, e, i) for m in range(9) for e in range(10) for i in range(2)]
+LOC_FL = [fl(m, e, i) for m in range(9) for e in range(10) for i in range(2)]
+PLURAL_FL = [fl(m, e, 0, p) for m in range(9, 13) for e in range(10) for p in range(8)]
+FORMAT_FL = [fl(m, e, 0, p) for m in range(13, 19) for e in range(10) for p in FMT_PAYLOADS]
+ALL_FL = LOC_FL + PLURAL_FL + FORMAT_FL
 FROZEN_FL = [f for f in ALL_FL if fl_frozen(f)]
 LIVE_FL = [f for f in ALL_FL if not fl_frozen(f)]
+FAMILY_FL = {"loc": LOC_FL, "plural": PLURAL_FL, "format": FORMAT_FL}
 FL_DEFS = "".join("Definition %s := mk_fl %s %s %s.\n" % (fl_coq(f), MACROS[fl_parts(f)[0]], EXPRS[fl_parts(f)[1]],
-                                                          "true" if fl_parts(f)[2] else "false") for f in ALL_FL)
+                                                          "true" if fl_parts(f)[2] else "false")
+                  for f in sorted(set(f % 1024 for f in ALL_FL)))
 FL_T, FL_TSTRING = fl(0, 0, 0), fl(2, 0, 0)
+
+
+def family_order(family):
+    """the flavours of one family in the order of the systematic corpus.  loc: all of them (frozen ones first, so that they
+    are paired with each other).  plural / format: every (macro, kind of first argument), the payload rotating, three rounds
+    (one per scope depth gets a different payload)"""
+    if family == "loc":
+        return [f for f in LOC_FL if fl_frozen(f)] + [f for f in LOC_FL if not fl_frozen(f)]
+    ms = range(9, 13) if family == "plural" else range(13, 19)
+    pl = list(range(8)) if family == "plural" else FMT_PAYLOADS
+    return [fl(m, e, 0, pl[(j + 3 * e + m) % len(pl)]) for j, m in enumerate(ms) for e in range(10)]
 
 
 # ------------------------------------------------------------------ histories
@@ -181,7 +227,10 @@ def remove_renumbered(ops, i):
     return out
 
 
-def gen_history(rng):
+def gen_history(rng, family=None):
+    live = LIVE_FL if family is None else [f for f in FAMILY_FL[family] if not fl_frozen(f)]
+    frozen = FROZEN_FL if family in (None, "loc") else []
+    both = live + frozen
     n = rng.choice([4, 8, 12, 20, 30, 40])
     sh, ops = Shape(), []
     wired_bias = rng.random() < 0.6
@@ -212,12 +261,12 @@ def gen_history(rng):
                 continue
             op = ("C", rng.randrange(len(sh.handles)))
         elif r < 0.88:
-            pool = FROZEN_FL if rng.random() < 0.12 else LIVE_FL
-            if (sh.nz if pool is FROZEN_FL else sh.nacc) >= (MAX_FROZEN if pool is FROZEN_FL else MAX_ACC):
+            pool = frozen if frozen and rng.random() < 0.12 else live
+            if (sh.nz if pool is frozen else sh.nacc) >= (MAX_FROZEN if pool is frozen else MAX_ACC):
                 continue
             op = ("A", rng.randrange(len(sh.handles)), rng.choice(pool), rng.choice(pool))
         elif r < 0.95:
-            f = rng.choice(ALL_FL)
+            f = rng.choice(both)
             if (sh.nw if fl_tracked(f) else sh.nz) >= (MAX_WATCH if fl_tracked(f) else MAX_FROZEN):
                 continue
             op = ("M", rng.randrange(len(sh.handles)), f)
@@ -242,15 +291,17 @@ def gen_root(rng):
     return {"enable": enable, "cookie": cookie, "accept": accept}
 
 
-def flavour_corpus():
-    """every flavour, on every scope depth, created BEFORE tracked and untracked sets (through the same handle and through
+def flavour_corpus(family="loc", rounds=1):
+    """every flavour of `family_order(family)`, on every scope depth, created BEFORE tracked and untracked sets (through the same handle and through
     another view of the context) and rendered after each step; every flavour mounted in an effect on some depth; alternately on
     the root context and on a sub-context"""
     out = []
-    order = FROZEN_FL + LIVE_FL
+    order = family_order(family)
+    live = [f for f in order if not fl_frozen(f)]
     chunks = [order[i:i + 8] for i in range(0, len(order), 8)]
     while len(chunks[-1]) < 8:
-        chunks[-1].append(LIVE_FL[len(chunks[-1])])
+        chunks[-1].append(live[len(chunks[-1])])
+    # the locales set: ar, ru, fr (and pt-BR on the parent): from en, plural categories and formatted texts change at each step
     mounted = {0: (0, 2, 4, 6), 1: (1, 3, 5, 7), 2: (0, 3, 4, 7)}
     for ci, ch in enumerate(chunks):
         for depth in range(3):
@@ -265,7 +316,7 @@ def flavour_corpus():
                 ops.append(("A", t, ch[j], ch[j + 1]))
             for j in mounted[depth]:
                 ops.append(("M", t, ch[j]))
-            ops += [("S", base, 3), ("F",), ("U", t, 2), ("G",), ("F",), ("S", t, 1), ("F",)]
+            ops += [("S", base, 6), ("F",), ("U", t, 5), ("G",), ("F",), ("S", t, 1), ("F",)]
             if base:
                 ops += [("S", 0, 4), ("F",)]
             out.append(({"enable": False, "cookie": None, "accept": None}, ops))
@@ -296,9 +347,9 @@ def op_word(op):
     if k in ("S", "U", "W"):
         return "%s%d,%d" % (k, op[1], op[2])
     if k == "A":
-        return "%s%d,%d,%d" % ("Z" if fl_frozen(op[2]) else "A", op[1], op[2], op[3])
+        return "%s%d,%d,%d,%d,%d" % ("Z" if fl_frozen(op[2]) else "A", op[1], op[2] % 1024, op[3] % 1024, fl_payload(op[2]), fl_payload(op[3]))
     if k == "M":
-        return "%s%d,%d" % ("M" if fl_tracked(op[2]) else "Y", op[1], op[2])
+        return "%s%d,%d,%d" % ("M" if fl_tracked(op[2]) else "Y", op[1], op[2] % 1024, fl_payload(op[2]))
     if k in ("C", "I"):
         return "%s%d" % (k, op[1])
     return k
@@ -364,9 +415,93 @@ def coq_obs(o):
                                          core.coq_list(map(str, o[4])))
 
 
+class Oracle:
+    """the fixed-locale tables printed by the harness (line `17`): what td_plural!/td_plural_ordinal! select and what
+    td_format! / td_format_string! render for every locale and payload; as Coq tables locale -> class of text"""
+
+    def __init__(self, line):
+        if not line.startswith("T "):
+            raise core.Infra("h_ctx: no oracle table line: " + line[:200])
+        self.plural, self.text = {}, {}
+        for ent in line[2:].split():
+            k, v = ent.split("=")
+            a, b, c = k[1:].split(":")
+            if k[0] == "P":
+                self.plural.setdefault((int(a), int(c)), {})[int(b)] = int(v)
+            else:
+                self.text.setdefault((k[0], int(a), int(b)), {})[int(c)] = bytes.fromhex(v).decode()
+        self.used = {}
+
+    def key(self, f):
+        m, p = fl_parts(f)[0], fl_payload(f)
+        if m < 9:
+            return None
+        if m < 13:
+            return ("P", 0 if m < 11 else 1, p)
+        return ("V" if m < 15 else "S", p // 4, p % 4)
+
+    def table(self, f):
+        k = self.key(f)
+        if k is None:
+            return None
+        if k[0] == "P":
+            row = self.plural[(k[1], k[2])]
+            return [row[l] for l in sorted(row)]
+        row = self.text[k]
+        ts = [row[l] for l in sorted(row)]
+        return [ts.index(t) for t in ts]
+
+    def texts(self, f, names):
+        k = self.key(f)
+        if k[0] == "P":
+            row = self.plural[(k[1], k[2])]
+            return {names[l]: FORM_NAMES[row[l]] if row[l] < 6 else "?" for l in sorted(row)}
+        return {names[l]: t for l, t in sorted(self.text[k].items())}
+
+    def coq(self, f):
+        k = self.key(f)
+        if k is None:
+            return "None"
+        name = "TB_%s_%d_%d_" % k
+        self.used[name] = self.table(f)
+        return "(Some %s)" % name
+
+    def dectab(self, ops):
+        accs, watch, frozen = [], [], []
+        for o in ops:
+            if o[0] == "A" and fl_frozen(o[2]):
+                frozen.append("(%s, %s)" % (self.coq(o[2]), self.coq(o[3])))
+            elif o[0] == "A":
+                accs.append("(%d%%nat, %s, %s)" % (o[1], self.coq(o[2]), self.coq(o[3])))
+            elif o[0] == "M" and fl_tracked(o[2]):
+                watch.append(self.coq(o[2]))
+            elif o[0] == "M":
+                frozen.append("(%s, %s)" % (self.coq(o[2]), self.coq(o[2])))
+        return "(mk_dectab %s %s %s)" % (core.coq_list(accs), core.coq_list(watch), core.coq_list(frozen))
+
+    def defs(self):
+        # all tables, so that the preamble does not depend on the order of the cases
+        for f in ALL_FL:
+            self.coq(f)
+        return "".join("Definition %s : tbl := %s.\n" % (n, core.coq_list(map(str, t))) for n, t in sorted(self.used.items()))
+
+    def problems(self):
+        """string and display variants must agree, the html of a view must be the string"""
+        out = []
+        for (k, fam, v), row in self.text.items():
+            for l, t in row.items():
+                if "DIFFER" in t:
+                    out.append("td_format_string!/td_format_display! differ: family %d value %d locale %d: %s" % (fam, v, l, t))
+                if k == "V" and self.text[("S", fam, v)][l] != t:
+                    out.append("td_format! view html %r differs from td_format_string! %r (family %d value %d locale %d)" % (
+                        t, self.text[("S", fam, v)][l], fam, v, l))
+        return out
+
+
 def evaluate(ctx, exe, hist, tag="c16"):
     """hist: list of (root, ops) -> (codes, metas); code 4 = harness panic / unstable flush"""
-    u, outs = C15.run_harness(exe, [line_of(r, o) for r, o in hist])
+    u, outs = C15.run_harness(exe, ["17"] + [line_of(r, o) for r, o in hist])
+    orc, outs = Oracle(outs[0]), outs[1:]
     names, flds = C15.parse_universe(u)
     tb = C15.Tables(names, flds)
     items, idx, metas, codes = [], [], [], [None] * len(hist)
@@ -376,6 +511,9 @@ def evaluate(ctx, exe, hist, tag="c16"):
     for i, ((root, ops), line, l15) in enumerate(zip(hist, outs, o15)):
         m = {"root": root, "ops": [list(o) for o in ops], "harness_line": line_of(root, ops), "impl_trace": line,
              "flavours": {"op%d" % j: [fl_name(f) for f in o[2:]] for j, o in enumerate(ops) if o[0] in ("A", "M")}}
+        rows = {fl_name(f): orc.texts(f, names) for o in ops if o[0] in ("A", "M") for f in o[2:] if orc.table(f) is not None}
+        if rows:
+            m["fixed_locale_oracle"] = rows
         metas.append(m)
         try:
             ta, tb_ = parse_trace(line, names)
@@ -385,14 +523,15 @@ def evaluate(ctx, exe, hist, tag="c16"):
             continue
         o = C15.parse_out(l15)
         main = "(mk_main_opts %s COOKIE_PREFERED_LANG %s %s)" % ("true" if root["enable"] else "false", tb.jar(o["jar"]), tb.acc(o["accept"]))
-        items.append("(mk_xcase APP_ %s %s %s %s)" % (main, core.coq_list([coq_op(x, tb) for x in ops]),
-                                                     core.coq_list(map(coq_obs, ta)), core.coq_list(map(coq_obs, tb_))))
+        items.append("(mk_tcase (mk_xcase APP_ %s %s %s %s) %s)" % (
+            main, core.coq_list([coq_op(x, tb) for x in ops]), core.coq_list(map(coq_obs, ta)), core.coq_list(map(coq_obs, tb_)),
+            orc.dectab(ops)))
         idx.append(i)
-    res = core.coq_eval(ctx, tag, PRE + FL_DEFS + "\n".join(tb.defs) + "\n",
-                        items, "xcheck", min_per_shard=8)
+    pre = PRE + FL_DEFS + orc.defs() + "\n".join(tb.defs) + "\n"
+    res = core.coq_eval(ctx, tag, pre, items, "tcheck", min_per_shard=8)
     for i, c in zip(idx, res):
         codes[i] = c
-    LAST["preamble"], LAST["items"] = PRE + FL_DEFS + "\n".join(tb.defs) + "\n", items
+    LAST["preamble"], LAST["items"], LAST["oracle"] = pre, items, orc
     return codes, metas, names
 
 
@@ -421,13 +560,15 @@ def shrink_ops(ctx, exe, root, ops, bad_codes):
                     cands.append(cur[:i] + [("N", o[1], None, o[3])] + cur[i + 1:])
                 # simpler accessors: both of one flavour, no interpolation arguments
                 if o[0] == "A":
-                    canon = lambda f: 192 + f % 32 if fl_frozen(f) else f % 32    # the same first argument given to td! / t!
+                    # the same first argument given to td! / t! / t_plural! / t_format! (tracked-ness kept)
+                    canon = lambda f: (192 + f % 32 if fl_frozen(f) else f % 32 if f < 288 else
+                                       f - 64 * ((fl_parts(f)[0] - 9) // 2) if f % 1024 < 416 else f - 64 * ((fl_parts(f)[0] - 13) // 2))
                     for fa, fb in ((o[2], o[2]), (o[3], o[3]), (o[2] & ~1, o[3]), (o[2], o[3] & ~1), (canon(o[2]), canon(o[3]))):
                         if (fa, fb) != (o[2], o[3]):
                             cands.append(cur[:i] + [("A", o[1], fa, fb)] + cur[i + 1:])
                 if o[0] == "M" and o[2] & 1:
                     cands.append(cur[:i] + [("M", o[1], o[2] & ~1)] + cur[i + 1:])
-                if o[0] == "M" and o[2] >= 32 and fl_tracked(o[2] % 32) == fl_tracked(o[2]):
+                if o[0] == "M" and 32 <= o[2] < 288 and fl_tracked(o[2] % 32) == fl_tracked(o[2]):
                     cands.append(cur[:i] + [("M", o[1], o[2] % 32)] + cur[i + 1:])
         if not cands:
             chunk //= 2
@@ -470,7 +611,7 @@ def run(ctx):
     bindir = core.cargo_build("h_ctx")
     ok, problems = core.coq_audit(ctx, PROPS, THEOREMS)
     exe = C15.exe_path(bindir)
-    hist = list(CORPUS) + flavour_corpus()
+    hist = list(CORPUS) + flavour_corpus("loc") + flavour_corpus("plural") + flavour_corpus("format")
     n = 400 if ctx.quick else 8000
     for _ in range(n):
         hist.append((gen_root(ctx.rng), gen_history(ctx.rng)))
@@ -490,7 +631,7 @@ def run(ctx):
         core.violation(ctx, "spec", {"failing_input": m2[0], "count": len(bad)})
     elif broken:
         core.violation(ctx, "panic", {"failing_input": metas[broken[0]], "explanation": "the runtime panicked or a flush did not reach quiescence"})
-    elif dis or not ok:
+    elif dis or not ok or LAST["oracle"].problems():
         first = None
         if dis:
             i = min(dis, key=lambda j: len(hist[j][1]))
@@ -500,6 +641,7 @@ def run(ctx):
             first["code"] = c2[0]
         core.violation(ctx, "correspondence", {
             "broken": ("theorem/audit: " + "; ".join(problems)) if not ok else
+                      ("fixed-locale oracle tables: " + "; ".join(LAST["oracle"].problems()[:3])) if LAST["oracle"].problems() else
                       "correspondence Runtime/ContextAcc.v (xmodel_trace) vs the real leptos runtime driven through leptos_i18n "
                       "contexts and accessor macros",
             "first_disagreeing_input": first, "disagreements": len(dis)}, no_input=True)
@@ -535,10 +677,13 @@ def run(ctx):
     core.write_evidence(ctx, {
         "evaluations": len(hist), "distinct_nontrivial": len(nontrivial),
         "steps_compared": sum(len(o) + 1 for _, o in hist),
-        "rule": "corpus histories first (3 hand-written, then a systematic family: every accessor flavour = 9 macros x 10 kinds of "
-                "first-argument expression x with/without interpolation arguments, on every scope depth, created before a set, an "
-                "untracked set and a set through another view, half of them mounted in an effect, alternately on the root and on a "
-                "sub-context), then random histories with random flavours: <=4 contexts (root + sub-contexts below any context, with/without a "
+        "rule": "corpus histories first (3 hand-written, then systematic families: every t!-family flavour = 9 macros x 10 kinds of "
+                "first-argument expression x with/without interpolation arguments; every plural macro (t_/tu_plural!, "
+                "t_/tu_plural_ordinal!) and every format macro (t_/tu_format!, _string, _display) x 10 kinds of context "
+                "expression with rotating payloads (counts 0 1 2 3 5 11 21 100; number/date/list values); each on every scope "
+                "depth, created before a set (to ar), an untracked set (to ru) and a set through another view (to fr), half of them "
+                "mounted in an effect, alternately on the root and on a sub-context), then random histories with random flavours "
+                "of all families: <=4 contexts (root + sub-contexts below any context, with/without a "
                 "wired caller signal, with/without a cookie name), <=40 ops among set/set_untracked/scope/accessor/mount/new signal/"
                 "signal write/flush/observe, flushes interleaved at random; random root options (cookies on/off, Cookie and "
                 "Accept-Language headers); non-trivial = at least one set and one sub-context; distinct by scenario line",
@@ -549,14 +694,20 @@ def run(ctx):
             "history_length": hist_len, "operation_kinds": kinds,
             "accessor_flavours": {
                 "flavours_total": len(ALL_FL),
+                "flavours_by_family": {k: len(v) for k, v in FAMILY_FL.items()},
+                "by_plural_count": {str(COUNTS[p]): sum(fstat[f]["created"] + fstat[f]["mounted"] for f in PLURAL_FL if fl_payload(f) == p)
+                                    for p in range(8)},
+                "by_format_payload": {"%s %s" % (FMT_FORMATTER[p // 4], FMT_VALUES[p // 4][p % 4]):
+                                      sum(fstat[f]["created"] + fstat[f]["mounted"] for f in FORMAT_FL if fl_payload(f) == p)
+                                      for p in FMT_PAYLOADS},
                 "flavours_created_and_rendered_after_a_later_set": sum(1 for f in ALL_FL if fstat[f]["before_set"]),
                 "flavours_created_and_rendered_after_a_later_untracked_set": sum(1 for f in ALL_FL if fstat[f]["before_set_untracked"]),
                 "flavours_mounted_before_a_later_set": sum(1 for f in ALL_FL if fstat[f]["mounted_before_set"]),
                 "accessors_and_effects_by_scope_depth": by_depth,
                 "by_macro": {MACRO_NAMES[m]: {k: sum(fstat[f][k] for f in ALL_FL if fl_parts(f)[0] == m)
                                              for k in ("created", "before_set", "before_set_untracked", "mounted", "mounted_before_set")}
-                             for m in range(9)},
-                "by_first_argument_kind": {"%s | %s" % (CTX_EXPR[e], LOC_EXPR[e]):
+                             for m in range(len(MACROS))},
+                "by_first_argument_kind": {"%s | td!: %s" % (CTX_EXPR[e], LOC_EXPR[e]):
                                            {k: sum(fstat[f][k] for f in ALL_FL if fl_parts(f)[1] == e)
                                             for k in ("created", "before_set", "before_set_untracked", "mounted", "mounted_before_set")}
                                            for e in range(10)},
@@ -573,6 +724,8 @@ def run(ctx):
         "frozen observers (td! over a Locale value bound at creation, effects over untracked accessors) are compared with the model "
         "only; the property demands nothing of them",
         "use_i18n() is evaluated under the owner of the context the accessor belongs to (creation and every rendering)",
+        "plural and format accessors: the expected text per locale is what the fixed-locale macro (td_plural!, td_plural_ordinal!, "
+        "td_format!, td_format_string!) renders in the same process; those tables are checked against CLDR / ICU4X by C05 and C18",
         "the root context's Cookie/Accept-Language oracles are read back as in C15"])
 
 
@@ -595,17 +748,26 @@ def replay(ctx, path):
                                                  " ; ".join(fl_name(f) for f in o[2:])))
     print("implementation trace:", metas[0]["impl_trace"])
     if LAST.get("items"):
-        c = LAST["items"][0]
+        c = "(t_case %s)" % LAST["items"][0]
+        rows = metas[0].get("fixed_locale_oracle")
+        if rows:
+            print("fixed-locale oracle (what td_plural!/td_format!.. render per locale):")
+            for nm, row in rows.items():
+                print("  %s: %s" % (nm, json.dumps(row, ensure_ascii=False)))
+            print("(plural / format renderings are printed as the class of their text and read back as a locale, see "
+                  "Runtime/ContextAccCheck.v dec_trace)")
         print("model trace (handles, accessors, mounted, cookies, frozen observers per step):", core.coq_show(
             ctx, LAST["preamble"],
             "let c := %s in map (fun o => (o_handles (fst o), o_accs (fst o), o_watch (fst o), o_cookies (fst o), snd o)) "
             "(xmodel_trace (init_main true (x_app c) (x_main c)) "
             "(mo_enable_cookie (x_main c)) (map (xcook (x_app c) (x_main c)) (x_ops c)))" % c))
-        for nm, fld in (("first trace: untracked reads, first accessor of each pair", "x_impl_a"),
-                        ("second trace: tracked reads, second accessor of each pair", "x_impl_b")):
+        for nm, fld, sel in (("first trace: untracked reads, first accessor of each pair", "x_impl_a", "true"),
+                             ("second trace: tracked reads, second accessor of each pair", "x_impl_b", "false")):
             print("first differing step (%s):" % nm, core.coq_show(
                 ctx, LAST["preamble"],
-                "let c := %s in xfirst_diff 0 (xmodel_trace (init_main true (x_app c) (x_main c)) (mo_enable_cookie (x_main c)) "
-                "(map (xcook (x_app c) (x_main c)) (x_ops c))) (%s c)" % (c, fld)))
+                "let tc := %s in let c := t_case tc in "
+                "let m := xmodel_trace (init_main true (x_app c) (x_main c)) (mo_enable_cookie (x_main c)) "
+                "(map (xcook (x_app c) (x_main c)) (x_ops c)) in xfirst_diff 0 m (dec_trace (t_dec tc) %s m (%s c))"
+                % (LAST["items"][0], sel, fld)))
     print("check code (0 ok, 2 model differs, 3 spec violated, 4 panic/unstable):", codes[0])
     return 1 if codes[0] in (3, 4) else 0
